@@ -15,7 +15,7 @@ fn kv(fields: &[(&str, &str)], case: &Value, detail: String) -> Violation {
 }
 
 /// `mutation`: "none" | "delete:<i>" | "update:<i>:<alphabet index>" | "create:<alphabet index>"
-pub fn eval_db(vectors: &[Vec<f32>], metric: &str, m: Option<usize>, mutation: &str, alpha: &[Vec<f32>], sink: &mut Sink) -> (u64, bool, BTreeMap<String, u64>) {
+pub fn eval_db(vectors: &[Vec<f32>], metric: &str, m: Option<usize>, mutation: &str, alpha: &[Vec<f32>], batch_all: bool, sink: &mut Sink) -> (u64, bool, BTreeMap<String, u64>) {
     let case = json!({"engine": "ENUM/db", "vectors": vsjson(vectors), "metric": metric, "m": m, "mutation": mutation, "alphabet": vsjson(alpha)});
     let n = vectors.len();
     let mut stats = BTreeMap::new();
@@ -139,6 +139,9 @@ pub fn eval_db(vectors: &[Vec<f32>], metric: &str, m: Option<usize>, mutation: &
                 if !(k == size + 1 || (k == 1 && ef.is_none())) {
                     continue;
                 }
+                if !batch_all && !(k == size + 1 && matches!(ef, None | Some(1))) {
+                    continue; // quick tier: two batch calls per script
+                }
                 match db.batch_vector_search("Doc", "emb", &queries, k, ef) {
                     Ok(b) => {
                         if b.len() != one.len() || b.iter().zip(&one).any(|(x, y)| x.len() != y.len() || x.iter().zip(y).any(|(p, q)| p.0 != q.0 || p.1.to_bits() != q.1.to_bits())) {
@@ -171,7 +174,7 @@ pub fn replay(case: &Value) -> Vec<Violation> {
     let mut sink = Sink::default();
     let vectors = refs::vsfrom(&case["vectors"]);
     let alpha = refs::vsfrom(&case["alphabet"]);
-    eval_db(&vectors, case["metric"].as_str().unwrap_or("cosine"), case["m"].as_u64().map(|x| x as usize), case["mutation"].as_str().unwrap_or("none"), &alpha, &mut sink);
+    eval_db(&vectors, case["metric"].as_str().unwrap_or("cosine"), case["m"].as_u64().map(|x| x as usize), case["mutation"].as_str().unwrap_or("none"), &alpha, true, &mut sink);
     let _ = vjson;
     sink.map.into_values().map(|x| x.1).collect()
 }
